@@ -8,8 +8,21 @@ def run(ctx):
     findings, diffs = simcommon.findings_for(res, "C06", ["st", "pl", "I"])
     cov = simcommon.coverage_from(res, "Adversarial prefix (random schedule, truncations, lost responses, silent minority < n/3 from a random point) then "
         "fair all-pairs cycles among the live nodes until quiescence (nobody busy, everything accepted is committed by all, equal block counts); bound 30 cycles.")
-    cyc = [s.get("a:live-cycles", 0) for s in res["stats"]]
+    allstats = list(res["stats"])
+    for fl in ("splitlive", "longsilent"):
+        # splitlive: directed split-vote prefix (undecided rounds backlog) then the fair suffix; longsilent: a minority silent for good,
+        # node 0 on an InmemStore with cache 200, more than 200 further events, then the fair suffix
+        r2 = simcommon.run(ctx, fl)
+        f2, d2 = simcommon.findings_for(r2, "C06", ["st", "pl", "I"])
+        findings += f2; diffs += d2
+        c2 = simcommon.coverage_from(r2)
+        cov["evaluations"] += c2["evaluations"]; cov["histories"] += c2["histories"]
+        cov["traces_validated_against_impl"] += c2["traces_validated_against_impl"]
+        cov["distribution_" + fl] = c2["distribution"]; cov["histogram_" + fl] = c2["histogram"]
+        allstats += r2["stats"]
+    findings, diffs = findings[:10], diffs[:10]
+    cyc = [s.get("a:live-cycles", 0) for s in allstats]
     cov["fair_cycles_needed"] = dict(max=max(cyc) if cyc else 0, mean=round(sum(cyc) / max(1, len(cyc)), 2),
                                      histogram={str(k): cyc.count(k) for k in sorted(set(cyc))})
-    cov["distinct_nontrivial"] = sum(1 for s in res["stats"] if s.get("a:live-cycles", 0) > 0 and s.get("blocks", 0) > 0)
+    cov["distinct_nontrivial"] = sum(1 for s in allstats if s.get("a:live-cycles", 0) > 0 and s.get("blocks", 0) > 0)
     return dict(findings=findings, coverage=cov, corr_diffs=diffs)
